@@ -495,6 +495,8 @@ Qed.
 
 Lemma Inv_set_tx all full s tr v b : Inv all full s tr -> Inv all full (set_tx v b s) tr.
 Proof. intros [H1 H2 H3 H4 H5]. constructor; cbn; auto. Qed.
+Lemma Inv_set_blocked all full s tr v : Inv all full s tr -> Inv all full (set_blocked v s) tr.
+Proof. intros [H1 H2 H3 H4 H5]. constructor; cbn; auto. Qed.
 
 Lemma Inv_reader_done all full s tr : m_err s <> None -> Inv all full s tr -> Inv all full (set_reader_done true s) tr.
 Proof.
@@ -523,7 +525,7 @@ Proof.
 Qed.
 
 Lemma fail_reader_eq e s : fail_reader e s = do_close (set_reader_done true (latch e s)).
-Proof. unfold fail_reader, do_close, latch. destruct s as [rx cs err cl rd q tx tb]; cbn. destruct err, cl; reflexivity. Qed.
+Proof. unfold fail_reader, do_close, latch. destruct s as [rx cs err cl rd q tx tb bl]; cbn. destruct err, cl; reflexivity. Qed.
 
 Lemma latch_err e s : m_err (latch e s) <> None.
 Proof. unfold latch. destruct (m_err s) eqn:E; cbn; congruence. Qed.
@@ -567,7 +569,7 @@ Proof. intros H x Hx. apply (find_none _ _ H x Hx). Qed.
 Lemma Inv_reader all full s tr : Forall wf_frame all ->
   Inv all full s tr -> Inv all full (reader_step s) tr.
 Proof.
-  intros Hwf HI. unfold reader_step.
+  intros Hwf HI. unfold reader_step. destruct (m_blocked s); [exact HI|].
   destruct (m_reader_done s) eqn:Erd; [exact HI|].
   destruct (m_closed s) eqn:Ecl.
   { apply Inv_reader_done; [apply latch_err|now apply Inv_latch]. }
@@ -788,6 +790,13 @@ Lemma deadlines_ok : deadlines_are_stubs = true.
 Proof. reflexivity. Qed.
 Lemma deadline_noop id k s : fst (deadline_step true id k s) = s.
 Proof. unfold deadline_step. destruct (find_conn id (m_conns s)); reflexivity. Qed.
+Lemma reader_started_ok : reader_started_once = true.
+Proof. reflexivity. Qed.
+Lemma unblock_fields s :
+  let s' := unblock_step true s in
+  m_rx s' = m_rx s /\ m_conns s' = m_conns s /\ m_err s' = m_err s /\ m_closed s' = m_closed s /\
+  m_reader_done s' = m_reader_done s /\ m_tx s' = m_tx s /\ m_tx_broken s' = m_tx_broken s.
+Proof. unfold unblock_step. destruct (m_blocked s); cbn; tauto. Qed.
 Lemma stale_close_noop id s : fst (stale_close_step true id s) = s.
 Proof. unfold stale_close_step. destruct (find_conn id (m_conns s)); [destruct (0 <? c_gen c)|]; reflexivity. Qed.
 
@@ -803,6 +812,8 @@ Proof.
     apply Inv_trace; [intros i; reflexivity|exact HI].
   - rewrite deadlines_ok in Hstep. pose proof (deadline_noop id k s) as Hn. rewrite Hstep in Hn. cbn [fst] in Hn. subst s'.
     apply Inv_trace; [intros i; reflexivity|exact HI].
+  - inversion Hstep; subst. apply Inv_trace; [intros i; reflexivity|]. rewrite reader_started_ok. unfold unblock_step.
+    destruct (m_blocked s); [now apply Inv_set_blocked|exact HI].
   - eapply Inv_write; eauto.
   - inversion Hstep; subst. apply Inv_trace; [intros i; reflexivity|]. now apply Inv_do_close.
   - inversion Hstep; subst. apply Inv_trace; [intros i; reflexivity|]. now apply Inv_conn_close.
@@ -917,7 +928,7 @@ Proof. unfold latch. now intros ->. Qed.
 
 Lemma reader_step_err s e : m_err s = Some e -> m_err (reader_step s) = Some e.
 Proof.
-  intros H. unfold reader_step, fail_reader.
+  intros H. unfold reader_step, fail_reader. destruct (m_blocked s); [exact H|].
   destruct (m_reader_done s); [exact H|]. destruct (m_closed s); [now rewrite (latch_some _ _ _ H)|].
   destruct (parse_one (m_rx s)); cbn [set_reader_done m_err]; rewrite ?do_close_err, ?(latch_some _ _ _ H); try exact H.
   destruct (find _ _); [|exact H]. destruct (_ <? _); [exact H|].
@@ -957,6 +968,7 @@ Proof.
   - destruct (open_step_fields open_closes_on_closed id s) as [-> _]. split; [exact H|discriminate].
   - rewrite close_checks_ok, stale_close_noop. split; [exact H|discriminate].
   - rewrite deadlines_ok, deadline_noop. split; [exact H|discriminate].
+  - rewrite reader_started_ok. destruct (unblock_fields s) as (_&_&->&_). split; [exact H|discriminate].
   - split; [|discriminate]. unfold write_step, write_step_pf.
     destruct (find_conn id (m_conns s)); [|exact H]. destruct (c_closed c); [exact H|].
     destruct (m_closed s || m_tx_broken s); [exact H|]. destruct cut; [|exact H].
@@ -991,7 +1003,7 @@ Definition all_closed (s : mux_st) : Prop := forall c, In c (m_conns s) -> c_clo
 Lemma step_closed mp s ev : m_closed s = true -> m_closed (fst (step_mp mp s ev)) = true.
 Proof.
   intros H. destruct ev; cbn [step_mp fst].
-  - unfold reader_step. destruct (m_reader_done s); [exact H|]. rewrite H. unfold latch. destruct (m_err s); exact H.
+  - unfold reader_step. destruct (m_blocked s); [exact H|]. destruct (m_reader_done s); [exact H|]. rewrite H. unfold latch. destruct (m_err s); exact H.
   - unfold read_step, mux_error. destruct (find_conn id (m_conns s)); [|exact H].
     destruct (c_queue c); [destruct (c_closed c)|destruct (c_closed c && negb pick)]; destruct (m_err s); exact H.
   - rewrite read_buf_fst. unfold read_step, mux_error. destruct (find_conn id (m_conns s)); [|exact H].
@@ -999,6 +1011,7 @@ Proof.
   - destruct (open_step_fields open_closes_on_closed id s) as [_ [-> _]]. exact H.
   - rewrite close_checks_ok, stale_close_noop. exact H.
   - rewrite deadlines_ok, deadline_noop. exact H.
+  - rewrite reader_started_ok. destruct (unblock_fields s) as (_&_&_&->&_). exact H.
   - unfold write_step, write_step_pf. destruct (find_conn id (m_conns s)); [|exact H]. destruct (c_closed c); [exact H|].
     rewrite H. exact H.
   - unfold do_close. now rewrite H.
@@ -1080,12 +1093,13 @@ Lemma drain_step mp s ev id : m_closed s = true -> ev <> EvOpen id ->
   queue_in id s = received id [(ev, snd (step_mp mp s ev))] ++ queue_in id (fst (step_mp mp s ev)).
 Proof.
   intros H Hev. destruct ev; cbn [step_mp fst snd].
-  - unfold reader_step. destruct (m_reader_done s); [reflexivity|]. rewrite H. unfold latch. destruct (m_err s); reflexivity.
+  - unfold reader_step. destruct (m_blocked s); [reflexivity|]. destruct (m_reader_done s); [reflexivity|]. rewrite H. unfold latch. destruct (m_err s); reflexivity.
   - apply drain_read.
   - rewrite read_buf_fst, received_readb. apply drain_read.
   - apply drain_open. congruence.
   - rewrite close_checks_ok, stale_close_noop. reflexivity.
   - rewrite deadlines_ok, deadline_noop. reflexivity.
+  - rewrite reader_started_ok. unfold queue_in. destruct (unblock_fields s) as (_&->&_). reflexivity.
   - unfold write_step, write_step_pf. destruct (find_conn id0 (m_conns s)); [|reflexivity]. destruct (c_closed c); [reflexivity|].
     rewrite H. reflexivity.
   - unfold do_close. rewrite H. reflexivity.
@@ -1170,7 +1184,7 @@ Proof.
 Qed.
 Lemma tx_reader s : m_tx (reader_step s) = m_tx s /\ m_tx_broken (reader_step s) = m_tx_broken s.
 Proof.
-  unfold reader_step. destruct (m_reader_done s); [split; reflexivity|].
+  unfold reader_step. destruct (m_blocked s); [split; reflexivity|]. destruct (m_reader_done s); [split; reflexivity|].
   destruct (m_closed s); [cbn [m_tx m_tx_broken set_reader_done]; apply tx_latch|].
   destruct (parse_one (m_rx s)); try apply tx_fail_reader.
   destruct (find _ _); [|split; reflexivity]. destruct (_ <? _); [split; reflexivity|].
@@ -1201,6 +1215,8 @@ Proof.
   - rewrite close_checks_ok in Hstep. pose proof (stale_close_noop id s) as Hn. rewrite Hstep in Hn. cbn [fst] in Hn. subst s'.
     (eapply TxInv_same; [ | | |exact HI]; auto).
   - rewrite deadlines_ok in Hstep. pose proof (deadline_noop id k s) as Hn. rewrite Hstep in Hn. cbn [fst] in Hn. subst s'.
+    (eapply TxInv_same; [ | | |exact HI]; auto).
+  - inversion Hstep; subst. rewrite reader_started_ok. destruct (unblock_fields s) as (_&_&_&_&_&H1&H2).
     (eapply TxInv_same; [ | | |exact HI]; auto).
   - unfold write_step, write_step_pf in Hstep.
     destruct (find_conn id (m_conns s)); [|inversion Hstep; subst; (eapply TxInv_same; [ | | |exact HI]; auto)].
@@ -1266,10 +1282,11 @@ Qed.
 
 (* ---------- orderly end of the peer's stream is an end-of-file ---------- *)
 Theorem eof_after_orderly_end s :
+  m_blocked s = false ->
   m_reader_done s = false -> m_closed s = false -> m_rx s = [] -> m_err s = None ->
   m_err (reader_step s) = Some EEOF /\ m_closed (reader_step s) = true.
 Proof.
-  intros H1 H2 H3 H4. unfold reader_step, fail_reader, do_close, latch. rewrite H1, H2, H3. cbn [parse_one].
+  intros H0 H1 H2 H3 H4. unfold reader_step, fail_reader, do_close, latch. rewrite H0, H1, H2, H3. cbn [parse_one].
   rewrite H4. cbn. rewrite H2. cbn. split; reflexivity.
 Qed.
 
@@ -1322,7 +1339,7 @@ Proof. unfold do_close. destruct (m_closed s) eqn:E; [exact E|reflexivity]. Qed.
 Theorem reader_failure_closes s :
   m_reader_done s = false -> m_reader_done (reader_step s) = true -> m_closed (reader_step s) = true.
 Proof.
-  intros Hrd. unfold reader_step. rewrite Hrd. destruct (m_closed s) eqn:Ec.
+  intros Hrd. unfold reader_step. destruct (m_blocked s); [rewrite Hrd; discriminate|]. rewrite Hrd. destruct (m_closed s) eqn:Ec.
   - intros _. unfold latch. destruct (m_err s); exact Ec.
   - unfold fail_reader. destruct (parse_one (m_rx s)); cbn [m_reader_done m_closed set_reader_done];
       try (intros _; apply do_close_closed).
@@ -1555,6 +1572,7 @@ Proof.
   - destruct (open_step_fields open_closes_on_closed id s) as (_&_&->&->&_). auto.
   - rewrite close_checks_ok, stale_close_noop. auto.
   - rewrite deadlines_ok, deadline_noop. auto.
+  - rewrite reader_started_ok. destruct (unblock_fields s) as (_&_&_&_&_&->&->). auto.
   - unfold write_step, write_step_pf. destruct (find_conn id (m_conns s)); [|auto]. destruct (c_closed c); [auto|].
     rewrite Hc. cbn [orb fst]. auto.
   - destruct (tx_do_close s) as [-> ->]. auto.
@@ -1573,6 +1591,7 @@ Proof.
   - destruct (open_step_fields open_closes_on_closed id s) as (_&_&->&_). reflexivity.
   - now rewrite close_checks_ok, stale_close_noop.
   - now rewrite deadlines_ok, deadline_noop.
+  - rewrite reader_started_ok. destruct (unblock_fields s) as (_&_&_&_&_&->&_). reflexivity.
   - exfalso. eapply Hw. reflexivity.
   - apply tx_do_close.
   - reflexivity.
@@ -1700,3 +1719,112 @@ Theorem deadline_forwarded_refuted :
   let '(s', tr') := run (init_mux (trunk [(2, [7; 8])]) 4 [1; 2]) evs in
   m_closed s' = false /\ map snd tr' = [ROk; ROk; RData [7; 8]].
 Proof. vm_compute. repeat split. Qed.
+
+(* ---------- Unblock ---------- *)
+Theorem unblock_noop_when_unblocked mp s : m_blocked s = false -> fst (step_mp mp s EvUnblock) = s.
+Proof. intros H. cbn [step_mp fst]. unfold unblock_step. rewrite H, reader_started_ok. reflexivity. Qed.
+
+Theorem unblock_idempotent mp s :
+  fst (step_mp mp (fst (step_mp mp s EvUnblock)) EvUnblock) = fst (step_mp mp s EvUnblock).
+Proof.
+  apply unblock_noop_when_unblocked. cbn [step_mp fst]. unfold unblock_step. rewrite reader_started_ok.
+  destruct (m_blocked s) eqn:E; [reflexivity|exact E].
+Qed.
+
+Lemma latch_blocked e s : m_blocked (latch e s) = m_blocked s.
+Proof. unfold latch. destruct (m_err s); reflexivity. Qed.
+Lemma do_close_blocked s : m_blocked (do_close s) = m_blocked s.
+Proof. unfold do_close. destruct (m_closed s); reflexivity. Qed.
+Lemma fail_reader_blocked e s : m_blocked (fail_reader e s) = m_blocked s.
+Proof. unfold fail_reader. cbn [m_blocked set_reader_done]. now rewrite do_close_blocked, latch_blocked. Qed.
+Lemma read_blocked id pk s : m_blocked (fst (read_step id pk s)) = m_blocked s.
+Proof.
+  unfold read_step, mux_error. destruct (find_conn id (m_conns s)); [|reflexivity].
+  destruct (c_queue c); [destruct (c_closed c)|destruct (c_closed c && negb pk)]; destruct (m_err s); reflexivity.
+Qed.
+
+(* only Unblock touches the flag *)
+Lemma step_blocked mp s e : m_blocked (fst (step_mp mp s e)) = match e with EvUnblock => false | _ => m_blocked s end.
+Proof.
+  destruct e; cbn [step_mp fst].
+  - unfold reader_step. destruct (m_blocked s) eqn:E; [exact E|]. destruct (m_reader_done s); [exact E|].
+    destruct (m_closed s); [cbn [m_blocked set_reader_done]; now rewrite latch_blocked|].
+    destruct (parse_one (m_rx s)); rewrite ?fail_reader_blocked; try exact E.
+    destruct (find _ _); [|exact E]. destruct (_ <? _); [exact E|]. rewrite fail_reader_blocked. exact E.
+  - apply read_blocked.
+  - rewrite read_buf_fst. apply read_blocked.
+  - unfold open_step. destruct (id =? reserved_conn_id); [reflexivity|].
+    destruct (find_conn id (m_conns s)); [destruct (c_mapped c)|]; reflexivity.
+  - rewrite close_checks_ok, stale_close_noop. reflexivity.
+  - rewrite deadlines_ok, deadline_noop. reflexivity.
+  - unfold unblock_step. rewrite reader_started_ok. destruct (m_blocked s) eqn:E; [reflexivity|exact E].
+  - unfold write_step, write_step_pf. destruct (find_conn id (m_conns s)); [|reflexivity]. destruct (c_closed c); [reflexivity|].
+    destruct (m_closed s || m_tx_broken s); [reflexivity|]. destruct cut; [|reflexivity].
+    destruct (_ <=? _); [reflexivity|]. destruct (cut_fatal _ _ _); [|reflexivity].
+    cbn [fst]. now rewrite do_close_blocked, latch_blocked.
+  - apply do_close_blocked.
+  - reflexivity.
+  - reflexivity.
+  - unfold trunk_up_step. destruct (m_closed s); reflexivity.
+  - unfold reader_fail_step. destruct (m_reader_done s); [reflexivity|].
+    destruct (m_closed s); [cbn [m_blocked set_reader_done]; apply latch_blocked|apply fail_reader_blocked].
+Qed.
+
+Definition not_unblock (e : event) : bool := match e with EvUnblock => false | _ => true end.
+
+(* on a Mux whose reader runs (never blocked, or unblocked once) any number of further Unblock calls, anywhere in
+   the schedule, change nothing: the same final state and, call for call, the same results of all other calls *)
+Theorem unblocks_change_nothing mp : forall evs s, m_blocked s = false ->
+  fst (run_mp mp s evs) = fst (run_mp mp s (filter not_unblock evs)) /\
+  filter (fun eo => not_unblock (fst eo)) (snd (run_mp mp s evs)) = snd (run_mp mp s (filter not_unblock evs)).
+Proof.
+  induction evs as [|e r IH]; intros s Hb; [split; reflexivity|].
+  cbn [run_mp filter]. destruct (not_unblock e) eqn:Ed.
+  - cbn [run_mp]. pose proof (step_blocked mp s e) as Hk. destruct (step_mp mp s e) as [s1 o]. cbn [fst] in Hk.
+    assert (Hb1 : m_blocked s1 = false) by (destruct e; try discriminate; congruence).
+    specialize (IH s1 Hb1).
+    destruct (run_mp mp s1 r) as [s2 tr2]. destruct (run_mp mp s1 (filter not_unblock r)) as [s3 tr3].
+    cbn [fst snd filter] in *. rewrite Ed. destruct IH as [-> ->]. split; reflexivity.
+  - destruct e; try discriminate. pose proof (unblock_noop_when_unblocked mp s Hb) as Hn.
+    destruct (step_mp mp s EvUnblock) as [s1 o]. cbn [fst] in Hn. subst s1. specialize (IH s Hb).
+    destruct (run_mp mp s r) as [s2 tr2]. cbn [fst snd filter not_unblock] in *. exact IH.
+Qed.
+
+Lemma received_strip_unblock id tr : received id (filter (fun eo => not_unblock (fst eo)) tr) = received id tr.
+Proof.
+  induction tr as [|[e o] r IH]; [reflexivity|]. cbn [filter fst]. destruct (not_unblock e) eqn:Ed.
+  - change ((e, o) :: r) with ([(e, o)] ++ r). change ((e, o) :: filter (fun eo => not_unblock (fst eo)) r) with ([(e, o)] ++ filter (fun eo => not_unblock (fst eo)) r).
+    now rewrite !received_app, IH.
+  - destruct e; try discriminate. change ((EvUnblock, o) :: r) with ([(EvUnblock, o)] ++ r).
+    rewrite received_app. cbn. exact IH.
+Qed.
+
+Theorem unblocks_delivery_unaffected mp evs s id : m_blocked s = false ->
+  received id (snd (run_mp mp s evs)) = received id (snd (run_mp mp s (filter not_unblock evs))) /\
+  queue_in id (fst (run_mp mp s evs)) = queue_in id (fst (run_mp mp s (filter not_unblock evs))).
+Proof.
+  intros Hb. destruct (unblocks_change_nothing mp evs s Hb) as [H1 H2]. rewrite <- H2, received_strip_unblock, H1. split; reflexivity.
+Qed.
+
+(* the variant in which Unblock can start a second reader: on a Mux that was never blocked an Unblock makes the two
+   readers split the stream — here the frame written to connection 1 is lost and an error comes instead *)
+Theorem unblock_second_reader_refuted :
+  let evs := [EvUnblock; EvReader; EvRead 1 true] in
+  let '(s, tr) := run_var5 false max_payload_size (init_mux (trunk [(1, [7; 8; 9])]) 4 [1]) evs in
+  map snd tr = [ROk; ROk; RErr EErr] /\
+  let '(s', tr') := run (init_mux (trunk [(1, [7; 8; 9])]) 4 [1]) evs in
+  map snd tr' = [ROk; ROk; RData [7; 8; 9]].
+Proof. vm_compute. repeat split. Qed.
+
+(* ---------- the reader's send into a connection's queue ---------- *)
+Lemma readq_ok : readq_never_closed = true.
+Proof. reflexivity. Qed.
+
+(* the queue's channel is never closed: whatever has happened to the connection between the reader's lookup and
+   its send (a conn.Close in particular), the send queues the frame or finds the queue full; it cannot panic *)
+Theorem send_cannot_panic c qlen : send_to (negb readq_never_closed) c qlen <> SendPanic.
+Proof. rewrite readq_ok. unfold send_to. cbn [negb andb]. destruct (_ <? _); discriminate. Qed.
+
+Theorem send_after_close_refuted :
+  exists c qlen, send_to true (c_unmap c) qlen = SendPanic.
+Proof. exists (mkConn 1 [] false true false 0), 4. reflexivity. Qed.
